@@ -13,7 +13,8 @@
                 q<f>                         the peer sends a channel request (want-reply) on the accepted forward f: the connection
                                              returned by Accept answers it with failure (DiscardRequests): Q<s>=fail
                 f<k> fp<k> fa<k> fm<k> fx<k> peer opens a forwarded channel for address k
-                                             (p: origin port 0, a: origin address unparsable, m: truncated payload, x: unknown channel type)
+                                             (p: origin port 0, h: origin port 65535 (valid), q: origin port 65536, a: origin address unparsable,
+                                             m: truncated payload, x: unknown channel type)
                 a<s> c<s>[!]                 Accept / Close on the listener created at step s ('!': peer refuses the cancel request)
                 x                            peer drops the connection
           cls   h = some Close/Listen call cannot return in its own step in some interleaving (finding F3)
@@ -52,6 +53,8 @@ def parseTok (t : String) : Option Tok :=
   | 'l' :: 't' :: r => (digitsNat? r).map (⟨"l", ·, if bang then "!" else ""⟩)
   | 'l' :: 'u' :: r => (digitsNat? r).map (⟨"l", ·, if bang then "!" else ""⟩)
   | 'l' :: r => (digitsNat? r).map (⟨"l", ·, if bang then "!" else ""⟩)
+  | 'f' :: 'h' :: r => if bang then none else (digitsNat? r).map (⟨"f", ·, "h"⟩)      -- originator port 65535: valid
+  | 'f' :: 'q' :: r => if bang then none else (digitsNat? r).map (⟨"f", ·, "q"⟩)      -- originator port 65536: out of range
   | 'f' :: 'p' :: r => if bang then none else (digitsNat? r).map (⟨"f", ·, "p"⟩)
   | 'f' :: 'a' :: r => if bang then none else (digitsNat? r).map (⟨"f", ·, "a"⟩)
   | 'f' :: 'm' :: r => if bang then none else (digitsNat? r).map (⟨"f", ·, "m"⟩)
@@ -122,7 +125,7 @@ def actOf (keys : List Key) (i : Nat) (t : Tok) : Option Act :=
   match t.kind with
   | "l" => (keys[t.arg]?).map (fun k => Act.listenCall i k (t.flag == "!"))
   | "f" => (keys[t.arg]?).map (fun k =>
-      Act.fwdSend ⟨i, k, t.flag == "" || t.flag == "x", t.flag != "x"⟩)
+      Act.fwdSend ⟨i, k, t.flag == "" || t.flag == "x" || (t.flag == "h" || (t.flag == "q" && k.net == .unix)), t.flag != "x"⟩)
   | "a" => some (.acceptCall i t.arg)
   | "c" => some (.closeCall i t.arg (t.flag != "!"))
   | "x" => some .disconnect
